@@ -5,6 +5,7 @@ from props.util import *
 KINDS7 = ["SMA", "WMA", "SD", "MAD", "MIN", "MAX", "BB"]
 t2_checker = "check_t2_window"
 T2_ALL = False
+aux_big = True   # also run the auxiliary big-period family (periods 2500 / 4100, two ring wraps) through the bit-exact tie
 rule = ("[also: (T) tie-rich words; (D) de Bruijn sequences over three ordered symbols at every cursor phase for MIN/MAX, seed-independent; (OVF) the K8 overflow witnesses] SMA, WMA, SD, MAD, MIN, MAX, BB: (A) all value sequences to the tier's depth over the alphabet {-2.5,-1,-0.0,0,1,1,3e11} for "
         "periods 1..5 (quick: a seeded sample of the leaves of the trie, every prefix checked); (B) seeded streams of length >= 4n+50 "
         "with mixed-sign log-uniform magnitudes up to 1e12, ties and plateaus, periods {1,2,3,1023,1024} and sampled from 1..1024; "
